@@ -561,6 +561,7 @@ func runTwoHubs(id int, seed int64, nops int) *thResult {
 				op("regA,regB,visA,visB")
 				continue
 			}
+			setupsN, setupsO := n.facts(o).setups, o.facts(n).setups
 			n.hub.DisconnectSKI(o.ski, "bye")
 			time.Sleep(time.Duration(rnd.Intn(450)) * time.Millisecond)
 			o.hub.DisconnectSKI(n.ski, "bye too")
@@ -574,13 +575,14 @@ func runTwoHubs(id int, seed int64, nops int) *thResult {
 			for i := 0; i < 120 && !back; i++ {
 				time.Sleep(50 * time.Millisecond)
 				fn, fo := n.facts(o), o.facts(n)
-				back = fn.connState == int(model.SmeStateComplete) && fo.connState == int(model.SmeStateComplete) && fn.lastLife == "setup" && fo.lastLife == "setup" && fn.setups >= 2 && fo.setups >= 2
+				// a connection that was set up after the disconnects (what the application was told last is C11's
+				// subject and judged at the end of the scenario, where the facts have stopped changing)
+				back = fn.connState == int(model.SmeStateComplete) && fo.connState == int(model.SmeStateComplete) && fn.setups > setupsN && fo.setups > setupsO
 			}
 			if !back {
 				fn, fo := n.facts(o), o.facts(n)
 				res.bad = append(res.bad, fmt.Sprintf("C05 both applications disconnected the completed connection within 450 ms of each other; both hubs stay paired and see each other, but 7 s later there is no new completed connection: %s holds state %d (set up %d, disconnected %d, last %q), %s holds state %d (set up %d, disconnected %d, last %q)",
 					n.name, fn.connState, fn.setups, fn.discs, fn.lastLife, o.name, fo.connState, fo.setups, fo.discs, fo.lastLife))
-				res.bad = append(res.bad, fmt.Sprintf("C11 after both applications disconnected, a hub still holds the ended connection: %s state %d, %s state %d", n.name, fn.connState, o.name, fo.connState))
 			}
 		case k == 201:
 			// the hub is shut down while it is establishing a connection; afterwards the application starts a new one
